@@ -226,7 +226,7 @@ class Rig:
                 # a real file (connection pool of several connections, WAL) instead of one shared :memory: connection
                 import tempfile
 
-                base = os.path.join(bootstrap.VERIF, "out")
+                base = os.environ.get("VERIF_TMP") or os.path.join(bootstrap.VERIF, "out")
                 os.makedirs(base, exist_ok=True)
                 self._tmpdir = tempfile.mkdtemp(prefix="sqlite-", dir=base)
                 self.file_db = os.path.join(self._tmpdir, "nostr.sqlite3")
@@ -264,6 +264,9 @@ class Rig:
             raise HarnessError("unknown backend %r" % self.backend)
         st_mod._STORAGE = s
         self.storage = s
+        # the periodic statistics logger only adds a 60 s timer the virtual clock would have to step through
+        if s.stat_collector._task is not None:
+            s.stat_collector._task.cancel()
         return s
 
     async def close(self):
@@ -462,7 +465,7 @@ class Conn:
         self.task = asyncio.get_running_loop().create_task(
             web.start_client(
                 rig.storage, self._send, self._recv, self._close, self.log,
-                message_timeout=10**9,
+                message_timeout=10**14,
                 rate_limiter=rate_limiter or NullRateLimiter(),
                 remote_addr=addr,
             )
